@@ -56,7 +56,7 @@ class BinarySensor(Device):
         if reset_after is not None:
             self._reset_task: Task | None = Task(
                 name=f"binary_sensor.reset_{id(self)}",
-                target=partial(self._set_internal_state, False),
+                target=self._reset_state,
                 wait_before_start=reset_after,
             )
         else:
@@ -112,6 +112,10 @@ class BinarySensor(Device):
                 self.after_update()
         elif self.always_callback:
             self.after_update()
+
+    def _reset_state(self) -> None:
+        """Reset to 'off' after `reset_after` - also the remote value, so that a following 'on' is a change again."""
+        self.remote_value.update_value(False)
 
     async def _counter_task(self, wait_seconds: float) -> None:
         """Trigger when context window has passed once with counter values and once reset."""
